@@ -286,6 +286,7 @@ def run(tier, seed, replay=None):
         if hm:
             hm.close()
         sc.close()
+    xcheck = xcheck + getattr(out, "xview", [])[:8]
     n, mism = core.coq_crosscheck("C19", xcheck)
     out.extra["coq_vm_crosscheck"] = {"cases": n, "mismatches": len(mism)}
     if mism:
